@@ -23,6 +23,11 @@ MIN_OBLIGATIONS = 20
 
 
 def run(repo, chk):
+    _run(repo, chk)
+    rule_h(repo, chk)
+
+
+def _run(repo, chk):
     chk.not_decided = [
         'stop() called from a second thread racing with the loop (covered structurally by C03 only)',
         'handlers that keep firing events for ever after stop (the drain loops do not terminate then, by design)',
@@ -218,3 +223,30 @@ def rule_idle(repo, chk, d):
     ok = bool(edges) and bool(red0) and all(e.dst in red0 or Q.escapes(gd, [e.dst], lambda n: n in red0) is None for e in edges)
     chk.ob('g', d.ref, 'a generate_events event dispatched while the manager is not running gets its idle budget reduced to 0 (run() can return)', ok,
            loc(d, d.node), discr='stopped-never-sleeps')
+
+
+def rule_h(repo, chk):
+    """What "queue non-empty" means: run()'s drain and tick()'s idle test ask len(queue)."""
+    from .c02 import _queue_roles
+    chk.rule('C08.h', 'the length of the event queue counts the waiting FIFO *and* the unfinished batch in the heap (run() drains until it is 0, so an '
+                      'interrupted batch is not left behind)')
+    q, fifo, heap, _counter, _batch = _queue_roles(repo)
+    ln = need(q.methods.get('__len__'), 'C08.h: _EventQueue.__len__ missing')
+    chk.touch(ln)
+    rets = [n for n in walk_no_defs(ln.node) if isinstance(n, ast.Return)]
+    ok = bool(rets)
+    for r in rets:
+        terms = set()
+
+        def collect(e):
+            if isinstance(e, ast.BinOp) and isinstance(e.op, ast.Add):
+                collect(e.left)
+                collect(e.right)
+            else:
+                terms.add(src(e).replace(' ', ''))
+        if r.value is None:
+            ok = False
+            continue
+        collect(r.value)
+        ok = ok and {f'len(self.{fifo})', f'len(self.{heap})'} <= terms
+    chk.ob('h', ln.ref, 'len(queue) = entries waiting + entries of the batch being dispatched', ok, loc(ln, ln.node), discr='len-counts-both')
